@@ -132,3 +132,51 @@ Definition count_infrag (cs : list case) : list nat :=
                             | 2%nat => text_in_fragment (cin c)
                             | 3%nat => val_in_fragment (cvobs c)
                             | _ => false end) cs)].
+
+(* ---- known-finding classes: which non-canonical default texts were actually used ---------
+   (the default text can be the product of an inner substitution, so this is computed along the
+   run of the model, not read off the tag).  0 = canonical; 1 number-like, 2 bool-like in another
+   letter case, 3 quoted, 4 bracketed, 5 a lone quote character (ParseAny panics), 6 other *)
+Definition default_class (d : bytes) : nat :=
+  if canonical_text d then 0%nat
+  else if is_quoted d then (match d with [_] => 5%nat | _ => 3%nat end)
+  else if bracketed d then 4%nat
+  else if beqb (map lower_ascii d) lit_true || beqb (map lower_ascii d) lit_false then 2%nat
+  else if is_number d then 1%nat
+  else 6%nat.
+
+Definition used_default_class (cfg : bytes -> cval) (exp : bytes) : nat :=
+  let (key, dflt) := split_first b_colon exp in
+  if absent (cfg key) then
+    match dflt with
+    | Some (c :: d) => default_class (c :: d)
+    | _ => 0%nat
+    end
+  else 0%nat.
+
+Fixpoint rac_classes (cfg : bytes -> cval) (fuel : nat) (s : bytes) : list nat :=
+  match find_first b_dollar s with
+  | None => []
+  | Some (i, n) =>
+    match fuel with
+    | O => []
+    | S k =>
+      let elr := firstn n (skipn i s) in
+      used_default_class cfg (content elr) ::
+        match resolve cfg (content elr) with
+        | Ok r => rac_classes cfg k (replace_first s elr r)
+        | _ => []
+        end
+    end
+  end.
+
+(* for every e2e case that violates the oracle: cid * 10 + class, one entry per distinct class used *)
+Definition kf_codes (cs : list case) : list nat :=
+  flat_map (fun c =>
+    match ckind c with
+    | 1%nat =>
+      if oracle_case c then []
+      else map (fun k => (cid c * 10 + k)%nat)
+               (nodup Nat.eq_dec (filter (fun k => negb (Nat.eqb k 0)) (rac_classes (cfg_of (ccfg c)) repo_budget (cin c))))
+    | _ => []
+    end) cs.
